@@ -118,6 +118,7 @@ def main() -> None:
                 "ready": True,
                 "pid": os.getpid(),
                 "hashseed": os.environ.get("PYTHONHASHSEED"),
+                "locale_encoding": __import__("locale").getencoding(),
                 "src": real,
             }
         )
